@@ -36,7 +36,12 @@ ASSUMPTIONS = [
     "and only with analytic derivatives",
     "use_irred_kpt=False, symmetrize=False, adpt_num_iter=0, parallel=False (symmetry reduction, refinement and "
     "parallel collection are C07, C10, C12)",
-    "tabulate.DerOrbitalMoment_test is outside the alphabet (its constructor raises for every input)",
+    "tabulate.DerOrbitalMoment_test is outside the alphabet (its constructor raises for every input); SDCT_sym/"
+    "SDCT_asym only with kBT>0 (with the default kBT=0 every entry is NaN on every factorisation) and not on the "
+    "k.p system (Data_K_k.Xbar('Ham') raises on purpose)",
+    "a factorisation dependence seen on a grid that contains an exactly degenerate band pair gets the key suffix "
+    "':exact_degeneracy' (the eigenvectors inside the multiplet are arbitrary there; only gauge-covariant "
+    "calculators can be expected to be reproducible)",
     "quick tier: core calculators only (13 static x tetra F/T, JDOS/OpticalConductivity/SHC, Energy/BerryCurvature/"
     "Velocity); thorough: every class of calculators.static, dynamic (+SDCT), tabulate",
     "if pyfftw cannot be imported the library silently uses numpy for 'fftw' (reported in the evidence as "
@@ -97,9 +102,14 @@ def cases(tier, seed):
         dyn_variants = ("L0",) if tier == "quick" else ("L0", "G1")
         for N in _n_alphabet(sysname, tier):
             for fam, names, variants, width in (("tab", tab, ("-",), 4), ("static", stat, ("plain", "tetra"), 4),
-                                                ("dyn", dyn, dyn_variants, 3)):
+                                                ("dyn", dyn, dyn_variants, 3 if tier == "quick" else 1)):
                 for variant in variants:
                     for grp in G.chunks(names, width):
+                        if variant == "L0":
+                            # SDCT needs kBT > 0: with the default kBT=0 every entry is NaN for every factorisation
+                            grp = [c for c in grp if not c.startswith("SDCT")]
+                        if not grp:
+                            continue
                         yield {"sys": sysname, "N": list(N), "fam": fam, "variant": variant, "calcs": grp}
 
 
@@ -208,25 +218,39 @@ def run_case(case, seed):
         if case["fam"] != "tab":
             probe.update({name: _abs_of(c) for name, c in _build_calcs(case, flags).items()})
         pr = G.run_on_grid(system, G.make_grid(system, div=div0, fft=fft0), probe, tmp, fftlib="fftw", tag="p")
-        tie = _ties(pr.results["__E"].get_data("Energy"), case)
+        Egrid = np.array(pr.results["__E"].get_data("Energy"))
+        tie = _ties(Egrid, case)
         if tie is not None:
             return {"ok": True, "nontrivial": False, "obs": {"skipped_tie": tie}}
+        # exactly degenerate band pairs (Kramers doublets at TRIMs ...): eigenvectors inside the multiplet are
+        # arbitrary, a failure there is a statement about gauge covariance and gets its own key
+        gaps = np.diff(Egrid.reshape(-1, Egrid.shape[-1]), axis=1)
+        ndeg = int(np.any(gaps < 1e-8, axis=1).sum()) if gaps.size else 0
+        degenerate = ndeg > 0
         scale = {}
         nonzero = False
+        nonfinite_ref = []
         for name in calcs:
             for lab, X in ref[name].items():
+                Xf = np.abs(X[np.isfinite(X)])
                 if case["fam"] == "tab":
-                    sc = max(1.0, float(np.abs(X).max()))
+                    sc = max(1.0, float(Xf.max()) if Xf.size else 0.0)
                 else:
-                    nat = float(np.abs(pr.results[name].data).max()) if hasattr(pr.results[name], "data") else 0.0
-                    sc = max(float(np.abs(X).max()), nat, 1e-300)
+                    P = np.abs(pr.results[name].data) if hasattr(pr.results[name], "data") else np.zeros(0)
+                    P = P[np.isfinite(P)]
+                    nat = float(P.max()) if P.size else 0.0
+                    sc = max(float(Xf.max()) if Xf.size else 0.0, nat, 1e-300)
                     if nat > 0:
                         nonzero = True
+                    if Xf.size < X.size:
+                        nonfinite_ref.append(name)
                 scale[(name, lab)] = sc
         if case["fam"] == "tab":
             nonzero = True
 
         def compare(res, what):
+            """first failure (in calculator order); the detail lists every calculator of the group that fails"""
+            first, failing = None, []
             for name in calcs:
                 got = _data_of(res, name, case)
                 if set(got) != set(ref[name]):
@@ -238,18 +262,29 @@ def run_case(case, seed):
                     if Y.shape != X.shape:
                         return {"ok": False, "key": f"{case['fam']}:{cname}:shape_differs",
                                 "detail": f"{sysname} N={N} {what}: {Y.shape} vs {X.shape}"}
-                    if not np.all(np.isfinite(Y)):
-                        return {"ok": False, "key": f"{case['fam']}:{cname}:not_finite",
-                                "detail": f"{sysname} N={N} {what}"}
-                    dev = float(np.abs(Y - X).max()) if X.size else 0.0
+                    fin = np.isfinite(X)
+                    if not np.array_equal(np.isfinite(Y), fin):
+                        return {"ok": False, "key": f"{case['fam']}:{cname}:nonfinite_pattern_differs",
+                                "detail": f"{sysname} N={N} {what}: {int((~np.isfinite(Y)).sum())} non-finite entries, "
+                                          f"reference has {int((~fin).sum())}"}
+                    dev = float(np.abs(Y[fin] - X[fin]).max()) if fin.any() else 0.0
                     rel = dev / scale[(name, lab)]
                     worst[cname] = max(worst.get(cname, 0.0), rel)
                     if rel > RTOL:
-                        v = case["variant"]
-                        return {"ok": False, "key": f"{case['fam']}:{v}:{cname}:depends_on_factorisation",
-                                "detail": f"{sysname} N={N} {what} vs NKdiv={div0},NKFFT={fft0},fftw: "
-                                          f"max|diff|={dev:.3e} scale={scale[(name, lab)]:.3e} rel={rel:.2e}"}
-            return None
+                        failing.append(cname)
+                        if first is None:
+                            v = case["variant"]
+                            key = f"{case['fam']}:{v}:{cname}:depends_on_factorisation"
+                            if degenerate:
+                                key += ":exact_degeneracy"
+                            first = {"ok": False, "key": key,
+                                     "detail": f"{sysname} N={N} {what} vs NKdiv={div0},NKFFT={fft0},fftw: "
+                                               f"max|diff|={dev:.3e} scale={scale[(name, lab)]:.3e} rel={rel:.2e}"
+                                               + (f" (the grid contains {ndeg} k-points with an exactly degenerate "
+                                                  f"band pair)" if degenerate else "")}
+            if first is not None and len(failing) > 1:
+                first["detail"] += f"; failing in this group: {failing}"
+            return first
 
         for (div, fft) in facts:
             # Grid(NK, NKFFT) must resolve to the same split as Grid(NKdiv, NKFFT)
@@ -286,6 +321,7 @@ def run_case(case, seed):
         leftovers = [f for f in __import__("os").listdir(tmp)]
     obs = {"runs": 2 * len(facts) + 1 + (dense == N), "worst_rel": {k: float(f"{v:.2e}") for k, v in worst.items()},
            "auto": auto, "auto_dense_is_N": dense == N, "files_in_tmp": len(leftovers),
+           "degenerate_kpoints": ndeg, "nonfinite_reference": nonfinite_ref,
            "pyfftw": bool(wbfft.PYFFTW_IMPORTED)}
     return {"ok": True, "nontrivial": keys, "obs": obs}
 
